@@ -99,6 +99,32 @@ CHECKS: dict[str, tuple[str, str, str, str, str]] = {
         "Trusted: a 10-line Pareto oracle and the monkeypatched next_bool/next_float seam (any other draw raises).",
         "5/C14",
     ),
+    "C20": (
+        "exploration",
+        "bounded-exhaustive value enumeration through the real trace observer, renderer and writer",
+        "Every value of a stated adversarial space (50 atoms incl. signed-zero/NaN/inf complex and nine enum "
+        "shapes, all containers to depth 2 over list/tuple/set/frozenset/dict, ~1.7k (thorough 12.6k) floats, 32 "
+        "typed objects, lengths 0..3) is routed through the real RemoteAssertionTraceObserver; every decided "
+        "assertion is rendered by assertion_to_cst, compiled and executed against the observed object in both "
+        "namespaces the real TestSuiteWriter can emit. 276 cases additionally run the real AssertionGenerator, "
+        "filter and writer and must match the predicted outcome.",
+        "Namespace taken from files written by the real writer; assertions run with the file's globals and "
+        "{var_0: obj} as locals. Values outside the stated space are not covered.",
+        "5/C20",
+    ),
+    "C23": (
+        "exploration",
+        "value enumeration for render/parse round trips + deviation-bounded choice-tree exploration of generate/mutate",
+        "Render/parse: all stated ints, floats, complex, str, bytes and depth-2 collections go through "
+        "literal_to_cst and must evaluate back to a type-, sign-of-zero- and NaN-identical value, and parse_literal "
+        "must agree. Generate/mutate: generate_literal and mutate_literal for all 10 literal types run under the "
+        "explorer-owned RNG for every execution with <= 2 (thorough 3) non-default draws in 4 corner "
+        "configurations, with empty/seeded providers and with/without a reference pool; they must never raise and "
+        "must yield a valid expression of the requested type.",
+        "RNG menus of mc/rng.py plus an adversarial character menu; int accepted for float/complex; mutation starts "
+        "are generated expressions plus 80 parsed literals.",
+        "5/C23",
+    ),
     "C25": (
         "exploration",
         "bounded-exhaustive hierarchy x type enumeration against algebraic laws",
